@@ -254,12 +254,12 @@ func framesUnder(root *ssa.Function) []*frame {
 type vpoint struct {
 	fr   *frame
 	blk  *ssa.BasicBlock
-	pred *ssa.BasicBlock // (unused marker kept for symmetry)
+	pred *ssa.BasicBlock        // (unused marker kept for symmetry)
 	benv map[*ssa.Phi]ssa.Value // the operand each boolean phi took on this path
 	bk   string
 	idx  int
-	ret map[*ssa.Call]*ssa.Return // path-sensitive: through which return each helper call on this path came back
-	rk  string
+	ret  map[*ssa.Call]*ssa.Return // path-sensitive: through which return each helper call on this path came back
+	rk   string
 }
 
 // resultEnv says, while a path is being explored, through which of its returns a looked-through helper call came
